@@ -13,9 +13,12 @@ CFG = {
         "only after `size` other distinct keys were touched more recently) - c05_model_satisfies_monitor, by a simulation invariant "
         "kept by every step (c05_step_sim); Get = the retrievable view, elapsed = never set for every operation, one-shot reads, "
         "Remove/Clear, at most max(0,size) entries after every history, the LRU guarantee, and agreement of the redis-backed model "
-        "with the in-memory one on every restricted history (c05_rds_agrees). The models are tied to the current source on every "
+        "with the in-memory one on every restricted history (c05_rds_agrees, hence c05_rds_satisfies_monitor); which deadline governs "
+        "a key after Set / keep-ttl / update-ttl at every later clock reading; the frame of Set up to the one evicted key. "
+        "The models are tied to the current source on every "
         "run by a differential check: generated histories (exhaustive deadline-1/0/+1 x operation-kind scripts, random histories "
-        "with clock jumps onto deadlines, LRU pressure, out-of-domain ttls/sizes/clocks, goroutines racing on one key) run on the "
+        "with clock jumps onto deadlines, LRU pressure, out-of-domain ttls/sizes/clocks, goroutines racing on one key of the memory "
+        "cache, callers racing on one key of the redis adapter with their commands interleaved by the fake) run on the "
         "real caches under a virtual clock, a real go-redis client whose process hook interprets the actual command stream, and "
         "Coq evaluates case_accept / case_holds on every observed case. Proof is the right level: the quantifier is over "
         "unboundedly many histories and clock positions; the code is two small sequential state machines."
@@ -27,13 +30,16 @@ CFG = {
         "0 < ttl <= 9223372036 (nanosecond count fits int64). Not modelled: the value returned together with a not-found error, "
         "aliasing of the caller's value slice, real redis (a model of the seven commands is trusted; its clock has second resolution), "
         "SCAN paging. Concurrency: every public method of ttlMemCache is one critical section (lint, checked on every run), so the "
-        "sequential theorems over histories are the concurrent ones; racing goroutines are additionally observed and replayed in a witness order. "
+        "sequential theorems over histories are the concurrent ones; racing goroutines are additionally observed and replayed in a witness order "
+        "(found by the untrusted Go reference, checked by Coq). The redis adapter's remove-after-get is one GETDEL; its update-ttl is GET followed by "
+        "EXPIRE (two commands, not atomic - outside the racing clause of the property, which names remove-after-get; not raced by the harness). "
         "The size-0 pre-fix defect is kept as a rejected trace, not as a variant model."
     ),
     "rule": (
         "one case = one history (6-36 operations over <= 6 keys, clock reading per operation) run on the real cache(s); "
         "memory case non-trivial = at least one Get hit and at least one Get miss on a previously set key or one already-exists; "
-        "redis case non-trivial = the history is in the restricted class (harness-side ledger) and has a hit and a miss/already-exists; "
+        "redis case non-trivial = the history is in the restricted class (harness-side ledger) and has a hit and a miss/already-exists "
+        "(redis-only racing case: restricted, a hit, at least two racing callers); "
         "distinct = distinct Coq case term (history + observed results [+ command stream])"
     ),
     "trusted": [
